@@ -582,7 +582,7 @@ func (l *Line) IPArray(name string, value []net.IP) *Line {
 	}
 
 	for _, v := range value {
-		if l.index+28+2 > cap(l.buffer) { // assume longest IP len 4*8+4
+		if l.index+39+2+1 > cap(l.buffer) { // longest IP text is 8 groups of 4 digits plus 7 colons; 2 for the separator, 1 for the closing bracket
 			break
 		}
 		if v != nil {
